@@ -319,3 +319,36 @@ def c_mismatch(ctx, case):
         ok = (x.t == s.t and np.array_equal(x.n, s.n) and np.array_equal(x.sum_px, s.sum_px)
               and np.array_equal(x.sum_pxx, s.sum_pxx) and x.log_likelihood == s.log_likelihood)
         ctx.check(ok, "refused addition still changed an operand", "operand-mutated")
+
+
+def g_rows(draw):
+    return gen.big_rows_case(draw)
+
+
+@REG.obligation("many_rows", g_rows, quick=12, thorough=200, shard_size=4)
+def c_rows(ctx, case):
+    """Thousands of rows in one acc_stats call (1e3 .. 7e4 rows: any internal batching is exercised): equal to the
+    moments computed from independently evaluated posteriors, to the sum over a few large blocks, and to the Dask result."""
+    X, cent = gen.big_rows(case)
+    k, F = cent.shape
+    n = X.shape[0]
+    r = np.random.default_rng(int(case["data_seed"]) + 1)
+    var = float(case["scale"]) ** 2 * np.exp(r.uniform(-1, 1, (k, F)))
+    w = r.dirichlet(np.full(k, 3.0))
+    p = {"C": k, "F": F, "weights": w, "means": cent, "variances": var, "floors": 1e-12 * var.min()}
+    g = sut.make_gmm(p)
+    post = ref.gmm_posteriors(X, w, cent, var)
+    want = {"t": n, "n": post.sum(axis=1), "sum_px": post @ X, "sum_pxx": post @ (X * X),
+            "log_likelihood": float(ref.gmm_logpdf(X, w, cent, var).sum())}
+    ctx.note(max(case["chunks"]) > 4096, "n>%d" % (10 ** int(np.log10(n))))
+    whole = g.acc_stats(X)
+    _cmp_stats(ctx, _sd(whole), want, X, "statistics of many rows", rtol=1e-9)
+    ctx.check(abs(float(np.sum(whole.n)) - n) <= 1e-9 * n, "responsibilities sum to %r for %d rows" % (float(np.sum(whole.n)), n), "sum-n")
+    edges = np.cumsum([0] + list(case["chunks"]))
+    acc = None
+    for a, b in zip(edges[:-1], edges[1:]):
+        s = g.acc_stats(X[a:b])
+        acc = s if acc is None else acc + s
+    _cmp_stats(ctx, _sd(acc), want, X, "sum over large blocks", rtol=1e-9)
+    _cmp_stats(ctx, _sd(g.acc_stats(sut.dask_rows(X, case["chunks"]))), want, X, "statistics of a Dask array with large chunks",
+               rtol=1e-9)
